@@ -18,11 +18,17 @@ class C07(object):
     id = 'C07'
     rule = ("kinds: OPS - the real Operations objects of 5 log bases (2, e, 10, 3.5, 0.5) on arrays of probabilities with "
             "zeros, singletons and empty arrays: add, mult, invert, normalize, add_reduce, mult_reduce exponentiate to "
-            "the linear arithmetic and agree with the model's formulas in Float; CHAIN - chains of 1..6 base conversions "
+            "the linear arithmetic and agree with the model's formulas in Float, likewise the in-place forms add_inplace / "
+            "mult_inplace (first argument receives the result, second untouched), and the 'linear' operations object itself "
+            "against exact rational arithmetic; OPS2D - normalize / add_reduce of 1..3 x 1..3 arrays with axis None / -1 / 0 / 1 in "
+            "all 6 bases against exact whole / row / column normalisation and the model's formulas per line; CHAIN - chains of 1..6 base conversions "
             "through set_base / copy(base=) round-trip; STRUCT - lookup, event_probability, validate, normalize, "
-            "marginal, coalesce, condition_on, product, mixture, sampling of a log distribution exponentiate to the "
+            "marginal, coalesce, condition_on, product, mixture (merge=True / merge=False / mixture_distribution2, the latter two "
+            "also against 1/4 p + 3/4 q in exact rationals), sampling (random numbers given, or drawn from a recording generator "
+            "passed as prng= or installed as the object's own) of a log distribution exponentiate to the "
             "results on its linear copy; MEASURE - Shannon-type measures of a log distribution times log2(base) equal "
-            "the linear values (perplexity base-free); HISTORY - a log distribution (Distribution or ScalarDistribution) and "
+            "the linear values (perplexity base-free), and entropy(p) of a number equals the binary entropy and the entropy of "
+            "(p, 1-p) held in the log base; HISTORY - a log distribution (Distribution or ScalarDistribution) and "
             "its linear twin go through the same history of 2..8 steps (d[o] = v on stored / new outcomes, del d[o], "
             "normalize, make_dense, make_sparse, set_base, and the non-mutating copy / from_distribution / copypmf / "
             "marginal / condition_on / is_approx_equal, whose results are checked and then disturbed in place); before "
@@ -61,6 +67,20 @@ class C07(object):
                         c['space'], c['spacekind'] = None, 'alphabet'
                     c['steps'] = hist_steps(rng, c)
                 yield c
+        # the operations object of EVERY base of the quantifier, 'linear' included (the reference arithmetic itself:
+        # LinearOperations.add / add_inplace / normalize are reached by nothing else). Drawn after the stream above
+        # so that the cases above are the same as before this block existed.
+        for _ in range(48 if tier == 'quick' else 2400):
+            k = rng.choice([0, 1, 2, 3, 5])
+            style = rng.choice(['pmf', 'any'])
+            xs = [rng.choice([0.0, 0.5, 0.25, 1.0, 1e-9, 0.3, 0.125, 2.0 if style == 'any' else 0.75]) for _ in range(k)]
+            ys = [rng.choice([0.0, 0.5, 0.25, 1.0, 0.1]) for _ in range(k)]
+            yield {'kind': 'ops', 'base': rng.choice(['linear', 'linear', 'linear'] + LOGBASES), 'xs': xs, 'ys': ys}
+        # 2-D arrays of probabilities with axis None / -1 / 0 / 1 for normalize and add_reduce, in every base
+        for _ in range(40 if tier == 'quick' else 2000):
+            nr, nc = rng.randint(1, 3), rng.randint(1, 3)
+            m = [[rng.choice([0.0, 0.5, 0.25, 1.0, 1e-9, 0.3, 0.125, 0.75]) for _ in range(nc)] for _ in range(nr)]
+            yield {'kind': 'ops2d', 'base': rng.choice(gen.BASES), 'm': m, 'axis': rng.choice([None, -1, 0, 1])}
 
     def shrink(self, case):
         if case['kind'] == 'history' and len(case.get('steps', [])) > 1:
@@ -92,10 +112,17 @@ class C07(object):
 
     def run_ops(self, case, drv, r):
         dit = import_dit()
-        from dit.math import get_ops, LogOperations
+        from dit.math import get_ops, LogOperations, LinearOperations
         base = case['base']
-        ops = LogOperations(base) if rngless(case) else get_ops(base)
-        b = gen.base_num(base)
+        linear = base == 'linear'
+        if linear:
+            ops = LinearOperations() if rngless(case) else get_ops(base)
+        else:
+            ops = LogOperations(base) if rngless(case) else get_ops(base)
+        if ops.get_base() != base:
+            r.oracle_fail = 'the operations object obtained for base %r reports the base %r' % (base, ops.get_base())
+            return
+        b = None if linear else gen.base_num(base)
         xs, ys = case['xs'], case['ys']
         r.nontrivial = len(xs) >= 3
         with np.errstate(all='ignore'):
@@ -115,6 +142,43 @@ class C07(object):
                 res['mult_reduce'] = (ex(ops.mult_reduce(lx)), np.array([np.prod(xs)]), ops.mult_reduce(lx))
             red = ops.add_reduce(lx)
             res['add_reduce'] = (ex(red), np.array([sum(xs)]), red)
+            # (normalize / add_reduce of 2-D arrays along an axis: kind 'ops2d' below; normalize used to fail there, repaired)
+            # the in-place forms: x receives the result, y is left alone. Expected values from exact rationals.
+            fxs, fys = [Fraction(x) for x in xs], [Fraction(y) for y in ys]
+            inplace_err = None
+            if len(xs):
+                for name, wantq in (('add_inplace', [x + y for x, y in zip(fxs, fys)]),
+                                    ('mult_inplace', [x * y for x, y in zip(fxs, fys)])):
+                    xa, ya = lx.copy(), ly.copy()
+                    out = getattr(ops, name)(xa, ya)
+                    res[name] = (ex(out), np.array([float(q) for q in wantq]), out)
+                    res[name + ' (its first argument afterwards)'] = (ex(xa), np.array([float(q) for q in wantq]), xa)
+                    if len(np.atleast_1d(out)) != len(xs) or len(xa) != len(xs):
+                        inplace_err = 'ops(%s).%s on %s, %s returned %d values' % (base, name, xs, ys, len(np.atleast_1d(out)))
+                    if f2bits_list(ya) != f2bits_list(ly):
+                        inplace_err = 'ops(%s).%s on %s, %s changed its SECOND argument from %r to %r' % (base, name, xs, ys, list(ly), list(ya))
+            if linear and len(xs):
+                # the linear object is the reference arithmetic of the statement: judged against exact rationals
+                res['add'] = (ex(ops.add(lx, ly)), np.array([float(x + y) for x, y in zip(fxs, fys)]), None)
+                res['mult'] = (ex(ops.mult(lx, ly)), np.array([float(x * y) for x, y in zip(fxs, fys)]), None)
+                if any(x > 0 for x in fxs):
+                    res['invert'] = (ex(ops.invert(lpos)), np.array([float(1 / x) for x in fxs if x > 0]), None)
+                if sum(fxs) > 0:
+                    res['normalize'] = (ex(ops.normalize(lx.copy())), np.array([float(x / sum(fxs)) for x in fxs]), None)
+                res['mult_reduce'] = (ex(ops.mult_reduce(lx)), np.array([float(frac_prod(fxs))]), None)
+            if linear:
+                res['add_reduce'] = (ex(red), np.array([float(sum(fxs))]), None)
+            if f2bits_list(lx) != [f2bits(gen.log_of(Fraction(x), base)) for x in xs]:
+                inplace_err = 'an operation of ops(%s) that is not in-place changed its argument %s' % (base, xs)
+        for name, (got, want, raw) in res.items():
+            if len(got) != len(want):
+                r.oracle_fail = 'ops(%s).%s on %s, %s gives %d values, linear arithmetic gives %d' % (base, name, xs, ys, len(got), len(want))
+                break
+        if inplace_err and not r.oracle_fail:
+            r.oracle_fail = inplace_err
+        if r.oracle_fail:
+            r.detail = {'xs': xs, 'ys': ys}
+            return
         for name, (got, want, raw) in res.items():
             for g, w in zip(got, want):
                 if not (abs(g - w) <= 1e-12 + 1e-9 * abs(w)):
@@ -123,7 +187,7 @@ class C07(object):
             if r.oracle_fail:
                 break
         # correspondence with the model's formulas (finite entries only)
-        if not r.oracle_fail and len(xs):
+        if not r.oracle_fail and len(xs) and not linear:
             finite = [i for i in range(len(xs)) if xs[i] > 0 and ys[i] > 0]
             fx = [f2bits(lx[i]) for i in finite]
             fy = [f2bits(ly[i]) for i in finite]
@@ -131,6 +195,13 @@ class C07(object):
                 for name in ('add', 'add_generic', 'mult'):
                     mo = [bits2f(v) for v in drv.call('opsf', [name, f2bits(b), fx, fy])]
                     raw = res['add' if name.startswith('add') else 'mult'][2]
+                    for i, m in zip(finite, mo):
+                        if not (abs(float(np.atleast_1d(raw)[i]) - m) <= 1e-9 * max(1.0, abs(m))):
+                            r.mismatch = 'ops(%s).%s: impl %r model %r' % (base, name, float(np.atleast_1d(raw)[i]), m)
+                # the in-place forms compute the same formulas
+                for name, mname in (('add_inplace', 'add'), ('mult_inplace', 'mult')):
+                    mo = [bits2f(v) for v in drv.call('opsf', [mname, f2bits(b), fx, fy])]
+                    raw = res[name][2]
                     for i, m in zip(finite, mo):
                         if not (abs(float(np.atleast_1d(raw)[i]) - m) <= 1e-9 * max(1.0, abs(m))):
                             r.mismatch = 'ops(%s).%s: impl %r model %r' % (base, name, float(np.atleast_1d(raw)[i]), m)
@@ -142,6 +213,73 @@ class C07(object):
                             if not (abs(float(g) - m) <= 1e-9 * max(1.0, abs(m))):
                                 r.mismatch = 'ops(%s).%s: impl %r model %r' % (base, name, list(raw), mo)
         r.detail = {'xs': xs, 'ys': ys}
+
+    def run_ops2d(self, case, drv, r):
+        """normalize / add_reduce of a 2-D array along an axis: whole (None), each row (-1, 1), each column (0), against
+        exact rationals; log objects exponentiate to the linear result. (normalize ignored the axis in the linear object
+        and misplaced it in the log objects until the repair e05dd1b.)"""
+        import_dit()
+        from dit.math import get_ops, LogOperations, LinearOperations
+        base, m, axis = case['base'], case['m'], case['axis']
+        linear = base == 'linear'
+        nr, nc = len(m), len(m[0])
+        fresh = (nr + nc) % 2 == 0
+        ops = (LinearOperations() if linear else LogOperations(base)) if fresh else get_ops(base)
+        q = [[Fraction(v) for v in row] for row in m]
+        r.nontrivial = nr * nc >= 3 and axis is not None
+        r.features += ['ops2d.axis=%s' % axis, 'ops2d.shape=%dx%d' % (nr, nc)]
+        r.detail = {'m': m, 'axis': axis}
+        # the lines (lists of cells) that are normalised together
+        if axis is None:
+            lines = [[(i, j) for i in range(nr) for j in range(nc)]]
+        elif axis == 0:
+            lines = [[(i, j) for i in range(nr)] for j in range(nc)]
+        else:
+            lines = [[(i, j) for j in range(nc)] for i in range(nr)]
+        with np.errstate(all='ignore'):
+            lx = np.array([[gen.log_of(v, base) for v in row] for row in q], dtype=float)
+            before = [f2bits_list(row) for row in lx]
+            z = np.asarray(ops.normalize(lx, axis=axis), dtype=float)
+            red = np.asarray(ops.add_reduce(lx, axis=axis), dtype=float)
+        if [f2bits_list(row) for row in lx] != before:
+            r.oracle_fail = 'ops(%s).normalize / add_reduce(axis=%s) changed its argument %s' % (base, axis, m)
+            return
+        if z.shape != (nr, nc):
+            r.oracle_fail = 'ops(%s).normalize(%s, axis=%s) has shape %s' % (base, m, axis, z.shape)
+            return
+        if red.size != len(lines):
+            r.oracle_fail = 'ops(%s).add_reduce(%s, axis=%s) has %d values for %d lines' % (base, m, axis, red.size, len(lines))
+            return
+        red = red.ravel()
+        close = lambda g, w: abs(g - w) <= 1e-12 + 1e-9 * abs(w)
+        for li, cells in enumerate(lines):
+            tot = sum(q[i][j] for i, j in cells)
+            g = gen.lin_of(red[li], base)
+            if not close(g, float(tot)):
+                r.oracle_fail = 'ops(%s).add_reduce(%s, axis=%s): line %d exponentiates to %r, its sum is %s = %r' % (base, m, axis, li, g, tot, float(tot))
+                return
+            if tot == 0:
+                continue            # 0/0: no normalisation is defined
+            for i, j in cells:
+                g, w = gen.lin_of(z[i, j], base), float(q[i][j] / tot)
+                if not close(g, w):
+                    r.oracle_fail = ('ops(%s).normalize(%s, axis=%s): entry [%d][%d] exponentiates to %r, %s / %s = %r (whole result exponentiated: %s)'
+                                     % (base, m, axis, i, j, g, q[i][j], tot, w, [[gen.lin_of(t, base) for t in row] for row in z]))
+                    return
+        # correspondence with the model's 1-D formulas, line by line (finite entries only)
+        if not linear:
+            b = gen.base_num(base)
+            for li, cells in enumerate(lines):
+                if not all(q[i][j] > 0 for i, j in cells):
+                    continue
+                arg = [f2bits(lx[i, j]) for i, j in cells]
+                mo = [bits2f(v) for v in drv.call('opsf', ['normalize', f2bits(b), arg, []])]
+                for (i, j), mv_ in zip(cells, mo):
+                    if not (abs(float(z[i, j]) - mv_) <= 1e-9 * max(1.0, abs(mv_))):
+                        r.mismatch = 'ops(%s).normalize(axis=%s) entry [%d][%d]: impl %r model %r' % (base, axis, i, j, float(z[i, j]), mv_)
+                mo = [bits2f(v) for v in drv.call('opsf', ['add_reduce', f2bits(b), arg, []])]
+                if not (abs(float(red[li]) - mo[0]) <= 1e-9 * max(1.0, abs(mo[0]))):
+                    r.mismatch = 'ops(%s).add_reduce(axis=%s) line %d: impl %r model %r' % (base, axis, li, float(red[li]), mo[0])
 
     def lin_table(self, d, klass, nested=False):
         base = d.get_base()
@@ -266,6 +404,39 @@ class C07(object):
         wl = [gen.log_of(Fraction(x), base) for x in w]
         pairs.append(('mixture_distribution', self.lin_table(dit.mixture_distribution([dl, ol], wl, merge=True), klass),
                       self.lin_table(dit.mixture_distribution([d0, o0], w, merge=True), klass)))
+        # the mixtures that assume identically stored components (mixture_distribution2: ops.mult_inplace / ops.add_inplace
+        # on the stored arrays) and a common sample space (merge=False), on dense copies of the same four distributions
+        dense = []
+        for t in (dl, ol, d0, o0):
+            t = t.copy()
+            t.make_dense()
+            dense.append(t)
+        al, bl, a0, b0 = dense
+        mixq = {}
+        for cs, wq in ((case, Fraction(1, 4)), (other, Fraction(3, 4))):
+            for o, p in zip(cs['outs'], cs['pmf']):
+                mixq[tuple(o)] = mixq.get(tuple(o), 0) + wq * Fraction(p)
+        for name, fn in (('mixture_distribution2', lambda ds, ws: dit.mixture_distribution2(ds, ws)),
+                         ('mixture_distribution(merge=False)', lambda ds, ws: dit.mixture_distribution(ds, ws, merge=False))):
+            ml, m0 = fn([al, bl], wl), fn([a0, b0], w)
+            if ml.get_base() != base or m0.get_base() != 'linear':
+                r.oracle_fail = '%s of base-%s distributions has base %r (of linear ones: %r)' % (name, base, ml.get_base(), m0.get_base())
+                return
+            tl, t0 = self.lin_table(ml, klass), self.lin_table(m0, klass)
+            pairs.append((name, tl, t0))
+            for who, t in (('base-%s' % base, tl), ('linear', t0)):
+                for o, p in t.items():
+                    wq = float(mixq.get(o, 0))
+                    if not (abs(p - wq) <= 1e-12 + 1e-9 * wq):
+                        r.oracle_fail = '%s of the %s distributions: P(%s) = %r, 1/4 p + 3/4 q = %r' % (name, who, list(o), p, wq)
+                        return
+            # the components are not consumed by the construction
+            for who, t, cs in (('first', al, case), ('second', bl, other), ('first linear', a0, case), ('second linear', b0, other)):
+                wt = {tuple(o): float(Fraction(p)) for o, p in zip(cs['outs'], cs['pmf'])}
+                for o, p in self.lin_table(t, klass).items():
+                    if not (abs(p - wt.get(o, 0.0)) <= 1e-12 + 1e-9 * wt.get(o, 0.0)):
+                        r.oracle_fail = 'after %s its %s component has P(%s) = %r, built with %r' % (name, who, list(o), p, wt.get(o, 0.0))
+                        return
         for name, a, b in pairs:
             if set(a) != set(b):
                 r.oracle_fail = '%s: sample spaces differ between base %s and linear' % (name, base)
@@ -311,6 +482,32 @@ class C07(object):
         if [repr(x) for x in dl.rand(size=8, rand=us)] != [repr(x) for x in d0.rand(size=8, rand=us)] and not self.near_boundary(d0, us):
             r.oracle_fail = 'sampling (second time) with the same random numbers differs between base %s and linear' % base
             return
+        # sampling without explicit random numbers: they come from the generator given, or from the object's own. The
+        # generator records what it hands out, so the samples are judged against the numbers actually drawn.
+        sd = case['seed'] % (2 ** 31)
+        for who, d in (('base-%s distribution' % base, dl), ('linear twin', d0)):
+            keep = d.prng
+            try:
+                draws = []
+                g = RecordingPrng(sd)
+                draws.append(('rand(size=8, prng=<generator>)', g, [repr(x) for x in d.rand(size=8, prng=g)]))
+                g = RecordingPrng(sd + 1)
+                draws.append(('rand(prng=<generator>)', g, [repr(d.rand(prng=g))]))
+                g = d.prng = RecordingPrng(sd + 2)
+                draws.append(('rand(size=8) with the generator as its own', g, [repr(x) for x in d.rand(size=8)]))
+                g = d.prng = RecordingPrng(sd + 3)
+                draws.append(('rand() with the generator as its own', g, [repr(d.rand())]))
+            finally:
+                d.prng = keep
+            for how, g, got in draws:
+                nums = np.array(g.drawn)
+                if len(nums) != len(got) or self.near_boundary(d0, nums):
+                    continue
+                ref = [repr(x) for x in d0.rand(size=len(nums), rand=nums)]
+                if got != ref:
+                    r.oracle_fail = ('%s of the %s drew the numbers %s and returned %s; the linear twin with the same numbers passed as rand= gives %s'
+                                     % (how, who, [float(u) for u in nums], got, ref))
+                    return
 
     # ------------------------------------------------------------------ histories
     # A log distribution and its linear twin are taken through the same sequence of steps. The measure the
@@ -431,6 +628,36 @@ class C07(object):
             if i == 0 and one != exp:
                 return '%s: rand(rand=%r) gives %s, its probabilities %s over the stored outcomes give %s' % (
                     what, float(u), list(one), [str(want.get(k, 0)) for k in stored], list(exp))
+        # the same with the random numbers drawn by a generator (the one passed, or the object's own) that records what
+        # it hands out: every sample is the outcome that the number drawn for it selects
+        sd = int(mask) % (2 ** 31)
+
+        def expected(u):
+            fu = Fraction(float(u))
+            if any(abs(fu - c) < Fraction(1, 10 ** 9) for c in cum) or fu >= cum[-1]:
+                return None
+            return stored[min(j for j, c in enumerate(cum) if fu < c)]
+        keep = d.prng
+        try:
+            draws = []
+            g = RecordingPrng(sd)
+            draws.append(('rand(size=6, prng=<generator>)', g, [key(x) for x in d.rand(size=6, prng=g)]))
+            g = RecordingPrng(sd + 1)
+            draws.append(('rand(prng=<generator>)', g, [key(d.rand(prng=g))]))
+            g = d.prng = RecordingPrng(sd + 2)
+            draws.append(('rand(size=6) with the generator as its own', g, [key(x) for x in d.rand(size=6)]))
+            g = d.prng = RecordingPrng(sd + 3)
+            draws.append(('rand() with the generator as its own', g, [key(d.rand())]))
+        finally:
+            d.prng = keep
+        for how, g, got2 in draws:
+            if len(g.drawn) != len(got2):
+                continue            # how many numbers a draw consumes is not part of the statement
+            for u, x in zip(g.drawn, got2):
+                exp = expected(u)
+                if exp is not None and x != exp:
+                    return '%s: %s drew the number %r and returned %s, its probabilities %s over the stored outcomes map that number to %s' % (
+                        what, how, float(u), list(x), [str(want.get(k, 0)) for k in stored], list(exp))
         # entropy in the object's own unit
         H = -sum(float(w) * math.log2(float(w)) for w in want.values() if w > 0)
         a = float(entropy(d))
@@ -683,6 +910,21 @@ class C07(object):
         pa, pb = float(perplexity(sl)), float(perplexity(s0))
         if not (abs(pa - pb) <= 1e-9 * pb):
             r.oracle_fail = 'perplexity(scalar): %r (base %s) vs %r (linear)' % (pa, base, pb)
+            return
+        # entropy of a number p (the binary entropy, in bits): the linear value of the two-outcome distribution (p, 1 - p),
+        # which its copy in the log base must reproduce in its own unit
+        for q in sorted(set([Fraction(case['pmf'][0]), Fraction(case['pmf'][-1]), Fraction(1, 2)])):
+            hb = float(entropy(float(q)))
+            H = -sum(float(t) * math.log2(float(t)) for t in (q, 1 - q) if t > 0)
+            if not (abs(hb - H) <= 1e-9):
+                r.oracle_fail = 'entropy(%r) = %r, the binary entropy of %s is %r bits' % (float(q), hb, q, H)
+                return
+            s2 = dit.ScalarDistribution([0, 1], [float(q), float(1 - q)], trim=False).copy(base=base)
+            a = float(entropy(s2))
+            if not (abs(a * k - hb) <= 1e-9):
+                r.oracle_fail = 'entropy of (%s, %s) held in base %s is %r (x log2(base) = %r) but entropy(%r) = %r bits' % (
+                    q, 1 - q, base, a, a * k, float(q), hb)
+                return
 
 
 HIST_VALUES = ['0', '1/8', '1/4', '1/2', '3/4', '1', '3/2', 'fill', 'fill']
@@ -718,8 +960,33 @@ def hist_steps(rng, case):
     return steps
 
 
+class RecordingPrng(object):
+    """A random number generator in the sense of dit's `prng` arguments (an object with a `rand` method), which
+    records the numbers it hands out."""
+
+    def __init__(self, seed):
+        self.rs = np.random.RandomState(seed)
+        self.drawn = []
+
+    def rand(self, *shape):
+        v = self.rs.rand(*shape)
+        self.drawn.extend(float(t) for t in np.atleast_1d(v).ravel())
+        return v
+
+
 def rngless(case):
     return len(case['xs']) % 2 == 0
+
+
+def frac_prod(qs):
+    out = Fraction(1)
+    for q in qs:
+        out *= q
+    return out
+
+
+def f2bits_list(a):
+    return [f2bits(float(v)) for v in np.atleast_1d(a)]
 
 
 PROP = C07()
